@@ -256,13 +256,90 @@ def focused_sets(rng):
         L = ['init', 'scan ' + H(G.MIR_POOL[0].replace('@N@', x)), 'load']
         if iface != 'interp':
             L += ['gen_init', 'opt 1']
-        L += ['link ' + iface, 'fill', ('interp f%s 4' if iface == 'interp' else 'call f%s 4') % x, 'fill',
+        L += ['link ' + iface, 'fill', ('interp f%s 4' if iface == 'interp' else 'call f%s 4') % x, 'fill', 'patchend',
               'scan ' + H(G.MIR_POOL[2].replace('@N@', x + 'c')), 'load', 'link ' + iface,
-              ('interp f%sc 5' if iface == 'interp' else 'call f%sc 5') % x]
+              ('interp f%sc 5' if iface == 'interp' else 'call f%sc 5') % x, 'patchend']
         L += (['gen_finish'] if iface != 'interp' else []) + ['finish']
         return L
     sets.append(('codepages@arena', [code_script(i) for i in ('interp', 'gen', 'lazy', 'interp', 'lazybb', 'gen')], 3))
+    sets.append(('ctxinit', ctxinit_scripts(nm), 2))
     return sets
+
+
+def ctxinit_scripts(nm):
+    """scripts whose observable behaviour depends on option state of the context and its sub-contexts: each runs a
+    'dirty' context first (options set away from their defaults: redefinition permitted, optimize level, debug level),
+    finishes it, and then uses fresh contexts with DEFAULT options.  Run under every heap fill (FILLS): a default that
+    init does not establish itself shows as a difference between the fills."""
+    H = G.hexs
+
+    def two_defs(x):
+        # two modules exporting the same function: rejected (repeated declaration) unless redefinition is permitted
+        m = 'm%s%%d: module\n export f%s\n f%s: func i64, i64:a\n local i64:r\n add r, a, %%d\n ret r\n endfunc\n endmodule\n' % (x, x, x)
+        return [m % (1, 1), m % (2, 2)]
+
+    def dirty(x, level, redef=1):
+        return ['init', 'redef %d' % redef, 'flags', 'scan ' + H(G.MIR_POOL[0].replace('@N@', x)), 'load', 'gen_init',
+                'opt %d' % level, 'gen_dbg 1', 'link gen', 'gen f' + x, 'call f%s 3' % x, 'gen_finish', 'finish']
+    out = []
+    # (a) redefinition permission: default context after a permissive one
+    x, y = nm(), nm()
+    a, b = two_defs(y)
+    out.append(dirty(x, 0) + ['init', 'flags', 'scan ' + H(a), 'scan ' + H(b), 'load', 'link interp', 'interp f%s 5' % y, 'finish'])
+    # (b) permitted redefinition in the SECOND context only, default again in the third
+    x, y, z = nm(), nm(), nm()
+    a, b = two_defs(y)
+    a2, b2 = two_defs(z)
+    out.append(['init', 'flags', 'finish', 'init', 'redef 1', 'flags', 'scan ' + H(a), 'scan ' + H(b), 'load', 'link interp',
+                'interp f%s 5' % y, 'finish', 'init', 'flags', 'scan ' + H(a2), 'load', 'scan ' + H(b2), 'load', 'finish'])
+    # (c) generator defaults (optimize level, debug state) after generators with other settings, every interface
+    for lv, iface in ((0, 'gen'), (3, 'lazy'), (1, 'lazybb'), (2, 'lazy')):
+        x, y = nm(), nm()
+        dbg = iface != 'lazybb'   # a whole-function MIR_gen of a function under the lazy-BB interface mixes two modes
+        out.append(dirty(x, lv, redef=lv & 1) + ['init', 'flags', 'scan ' + H(G.MIR_POOL[2].replace('@N@', y)),
+                                                 'scan ' + H(G.MIR_POOL[0].replace('@N@', y + 'd')), 'load', 'gen_init', 'link ' + iface]
+                   + (['dbglines f' + y] if dbg else []) + ['call f%s 7' % y, 'call f%sd 2' % y, 'gen_finish']
+                   + (['gen_init', 'dbglines f%sd' % y, 'gen_finish'] if dbg else []) + ['finish'])
+    # (d) interpreter and IO state of a fresh context after a context that used them
+    x, y = nm(), nm()
+    out.append(['init', 'redef 1', 'scan ' + H(G.MIR_POOL[1].replace('@N@', x)), 'api 5 1', 'write', 'load', 'link interp', 'interp f%s 5' % x,
+                'finish', 'init', 'flags', 'scan ' + H(G.MIR_POOL[1].replace('@N@', y)), 'load', 'link interp',
+                'interp f%s 6' % y, 'output', 'finish', 'init', 'read', 'load', 'link interp', 'interp f%s 5' % x, 'interp apif5 3',
+                'finish'])
+    return out
+
+
+FILLS = ('p00', 'pff', 'p5a', 'dirty')
+
+
+def fill_pass(chk, exe, name, th, found):
+    """the scripts one after another under a data allocator that pre-fills every block with 0x00 / 0xff / 0x5a or hands
+    out the blocks of finished contexts again (dirty): identical per-thread output is required"""
+    ref = None
+    for fill in FILLS:
+        alloc = fill + ('+arena' if name.endswith('@arena') else '')
+        rc, out, err, lines = run_set(exe, th, 2, 'seq', alloc, timeout=300)
+        chk.count(lines, nontrivial=True)
+        chk.dist('heap_fill_runs', fill)
+        res = per_thread(out)
+        if rc == 124:
+            found.setdefault('hang:heap-fill:' + fill, (lines, dict(set=name, fill=fill, stderr=err[-800:]),
+                                                        'run under the heap fill %s did not terminate' % fill))
+            continue
+        if ref is None:
+            ref = (fill, res, rc)
+            continue
+        if res != ref[1] or rc != ref[2]:
+            bad = sorted(t for t in set(res) | set(ref[1]) if res.get(t) != ref[1].get(t))
+            t = bad[0] if bad else 0
+            a, b = ref[1].get(t, []), res.get(t, [])
+            k = next((i for i in range(min(len(a), len(b))) if a[i] != b[i]), min(len(a), len(b)))
+            found.setdefault('interference:heap-fill', (
+                lines, dict(set=name, fills=[ref[0], fill], rc=[ref[2], rc], thread=t, first_difference=[a[k:k + 2], b[k:k + 2]],
+                            stderr=err[-600:], script=th[t] if t < len(th) else None),
+                'a context behaves differently depending on the bytes its allocator returned (fill %s vs %s): a field of the '
+                'context is inherited from the heap, not initialised -- contexts are coupled through heap reuse; thread %d: %s vs %s' % (
+                    ref[0], fill, t, a[k:k + 1], b[k:k + 1])))
 
 
 def coqchk(chk, mods):
@@ -318,8 +395,13 @@ def run(chk):
         nrun += 1
         alloc = 'arena' if name.endswith('@arena') else 'default'
         t1 = time.time()
-        rc2, out2, err2, _ = run_set(exe, th, reps, 'seq', alloc)
+        rc2, out2, err2, lines2 = run_set(exe, th, reps, 'seq', alloc, timeout=300)
         tseq = time.time() - t1
+        if rc2 == 124:
+            found.setdefault('hang:sequential:' + name, (lines2, dict(set=name, rc=rc2, stderr=err2[-1500:]),
+                                                         'the scripts run one after another did not terminate within 300 s'))
+            chk.count(lines2, nontrivial=len(th) >= 2)
+            continue
         # the parallel run gets a bound derived from the sequential one: interference can also show as a hang
         rc, out, err, lines = run_set(exe, th, reps, 'par', alloc, timeout=max(120, 25 * tseq))
         chk.count(lines, nontrivial=len(th) >= 2)
@@ -371,6 +453,15 @@ def run(chk):
             found.setdefault('interference:results', (lines, dict(set=name, threads=bad, parallel={t: a.get(t) for t in bad},
                                                                   sequential={t: b.get(t) for t in bad}),
                                                       'a thread obtained different results in the parallel run than running alone'))
+    # --- every field of a context is initialised by init, not inherited from the heap: the same scripts under a data
+    #     allocator returning pre-filled / previously used blocks must behave identically
+    fsets = [x for x in sets if x[0] in ('ctxinit', 'gen', 'interp', 'io', 'codepages@arena') or (not quick and x[0] == 'c2mir')]
+    fsets += [x for x in sets if x[0].startswith('random')][:2 if quick else 40]
+    for name, th, reps in fsets:
+        if found and time.time() - chk.t0 > (150 if quick else 1200):
+            break
+        fill_pass(chk, exe, name, th, found)
+    chk.cov['heap_fill_sets'] = [x[0] for x in fsets]
     # --- the library's static data made read-only (validates the translator's "nothing is written" fact dynamically,
     #     including stores through pointers): fixed histories covering every source kind and interface + random ones
     ro_rng = chk.rng('ro-statics')
